@@ -81,7 +81,10 @@ TableVerdict(t) ==
     ELSE IF \E i \in I : R[i].b2 < 0 THEN "encode-raises"
     ELSE IF \E i \in I : ~Same(Decode(c, R[i].b2), val(i)) THEN "encode-decode"
     ELSE IF \E i \in I : val(i).k # "nan" /\ R[i].b2 # R[i].b THEN "encode-unique"
+    ELSE IF \E i \in fin : R[i].b3 # R[i].b2 THEN "encode-depends-on-the-spelling"
+    ELSE IF Len(t.nanrt) = 1 /\ ~t.nanrt[1] THEN "nan-does-not-round-trip"
     ELSE IF \E i \in fin : ~Same(Canon(R[i].norm), val(i)) THEN "normalize"
+    ELSE IF \E i \in fin : ~Same(Canon(R[i].norm2), val(i)) THEN "normalize-depends-on-the-spelling"
     ELSE IF \E i, j \in fin : (Lt(val(i), val(j)) # (R[i].ord < R[j].ord)) THEN "ordinal-order"
     ELSE IF \E i, j \in fin : (SameVal(val(i), val(j)) # (R[i].ord = R[j].ord)) THEN "ordinal-zero"
     ELSE IF fin # {} /\
